@@ -64,6 +64,15 @@ class Instance:
     def __exit__(self, *a: Any) -> None:
         if self.env is not None:
             self.env.__exit__(*a)
+        if self.store is not None:
+            # pyarrow keeps the file-system handler of finished executions alive (a C-level reference the
+            # collector cannot see); the handler holds the store, the store's hooks hold the scheduler and every
+            # table of the execution: long runs grew by ~160 KB per execution until the kernel killed workers.
+            # Cut the chain here.
+            self.store.before.clear()
+            self.store.after.clear()
+            self.store.objects.clear()
+            self.store.log.clear()
         if self.root is not None:
             shutil.rmtree(self.root, ignore_errors=True)
 
